@@ -64,85 +64,7 @@ func c06(c *Ctx) {
 	ssaS := c.method(pkgClaim, "ServerSideCompositeSyncer", "Sync")
 	csaS := c.method(pkgClaim, "ClientSideCompositeSyncer", "Sync")
 
-	for _, it := range []struct {
-		rule string
-		fn   *ssa.Function
-		csa  bool
-	}{{"R6.1", ssaS, false}, {"R6.2", csaS, true}} {
-		c.R.Rule(it.rule, "record the reference first: the XR write needs ok(Update(claim)) after SetResourceReference(ref of the written XR)"+boolStr(it.csa, "; skip only when the reference is already recorded"), 4,
-			"an XR created before its reference is durable on the claim is leaked by a crash and a second XR is created on retry")
-		fn := it.fn
-		if fn == nil {
-			continue
-		}
-		xw, xrObj, cu := syncSites(fn)
-		if xw == nil || len(cu) == 0 {
-			c.R.Unknown(load.FuncName(fn)+": sites", c.pos(fn.Pos()), "XR write or claim Update not found")
-			continue
-		}
-		cm := ssa.Value(fn.Params[2])
-		// the claim update that precedes the XR write
-		var first ssa.CallInstruction
-		for _, u := range cu {
-			if cfgx.InstrReaches(u, xw, nil) {
-				first = u
-			}
-		}
-		if first == nil {
-			c.R.Bad(site(xw)+" after-claim-update", c.pos(xw.Pos()), "no claim Update precedes the XR write")
-			continue
-		}
-		gates := okEdges(first)
-		what := "ok(client.Update(claim))"
-		if it.csa {
-			for _, eq := range calls(fn, "github.com/google/go-cmp/cmp.Equal") {
-				a := eq.Common().Args
-				isExisting := func(v ssa.Value) bool {
-					return flow.Default.Any(v, func(x ssa.Value) bool { return hasSuffixCall(x, "claim.Unstructured).GetResourceReference") })
-				}
-				isProposed := func(v ssa.Value) bool {
-					return flow.Default.Any(v, func(x ssa.Value) bool { return hasSuffixCall(x, "composite.Unstructured).GetReference") })
-				}
-				if (isExisting(a[0]) && isProposed(a[1])) || (isExisting(a[1]) && isProposed(a[0])) {
-					t, _ := cfgx.CallCondEdges(eq)
-					gates = append(gates, t...)
-					what += " or cmp.Equal(recorded, proposed reference)"
-				}
-			}
-		}
-		c.requireCross(site(xw)+" after-claim-update", xw, gates, what)
-		// SetResourceReference(ref of written XR) dominates the claim update
-		srr := methodCallOn(fn, "claim.Unstructured).SetResourceReference", cm)
-		good := false
-		for _, s := range srr {
-			arg := cfgx.CallArgs(s)[0]
-			fromXR := false
-			for _, ci := range flow.Strict.CallsIn(arg) {
-				if strings.HasSuffix(cfgx.CalleeName(ci), "composite.Unstructured).GetReference") && flow.Root(underIface(cfgx.Receiver(ci))) == xrObj {
-					fromXR = true
-				}
-			}
-			if fromXR && cfgx.MustPass(s.Block(), first.Block()) && cfgx.InstrReaches(s, first, nil) {
-				good = true
-			}
-		}
-		c.R.Check(good, site(first)+" carries-reference", c.pos(first.Pos()), "the claim written carries the reference of the XR object that will be written", "the claim Update is not preceded by SetResourceReference(reference of the XR that is written)")
-		c.R.Check(flow.Root(underIface(cfgx.CallArgs(first)[1])) == cm, site(first)+" updates-claim", c.pos(first.Pos()), "updates the claim parameter", "the Update before the XR write is not of the claim being synced")
-		// no Patch/Apply/Create of the claim before the XR write
-		for _, w := range directWrites(fn) {
-			if w == first || cfgx.CalleeName(w) == clientUpdate {
-				continue
-			}
-			a := cfgx.CallArgs(w)
-			if len(a) > 1 && fullType(a[1]) == tClaimUnstr && cfgx.InstrReaches(w, xw, nil) && cfgx.CalleeName(w) != statusUpdate {
-				c.R.Bad(site(w)+" claim-write-kind", c.pos(w.Pos()), "the claim is written before the XR with a call that is not resourceVersion-checked (must be client.Update)")
-			}
-		}
-		// a failed claim update returns
-		ev := cfgx.ErrEvents(first)
-		r, w := cfgx.ReachableFromEdges(ev.Fail, xw, ev.OK, c.posf())
-		c.R.Check(!r && len(ev.Fail) > 0, site(first)+" failure-returns", c.pos(first.Pos()), "a failed claim Update returns before the XR write", "the XR write is reachable after a failed claim Update", w...)
-	}
+	claimRecordsFirst(c, ssaS, csaS, "R6.1", "R6.2")
 
 	c.R.Rule("R6.3", "a recorded name is reused: SetName(cm.GetResourceReference().Name) on the non-nil edge, before GenerateName; no other SetName on the written XR", 6,
 		"a retry after a failed XR write (or an XR that cannot be read yet) would generate a new name and create a second XR")
@@ -338,6 +260,10 @@ func c06(c *Ctx) {
 		ci, ok := arg.(*ssa.Call)
 		c.R.Check(ok && strings.HasSuffix(cfgx.CalleeName(ci), "claim.Unstructured).GetReference") && flow.Root(underIface(cfgx.Receiver(ci))) == cm, site(sc[0])+" cm.GetReference()", c.pos(sc[0].Pos()), "claimRef = cm.GetReference()", "the claim reference written to the XR is not cm.GetReference()")
 	}
+
+	c.R.Rule("R6.6", "the name generator hands out a name only when nothing holds it", 3,
+		"a generated name that an existing XR already holds - bound to another claim, even if that XR is terminating - makes the syncer write this claim's spec and claimRef onto that XR")
+	nameGeneratorRules(c)
 }
 
 // headDominatesViaNil: the guard `WasCreated(xr) && ref != nil && !Equal(...)`
@@ -354,4 +280,88 @@ func headDominatesViaNil(fn *ssa.Function, head ssa.CallInstruction, e ssa.CallI
 		}
 	}
 	return false
+}
+
+// claimRecordsFirst: the XR write is reached only over the success edge of a
+// full Update of the claim that carries the written XR's reference.
+func claimRecordsFirst(c *Ctx, ssaS, csaS *ssa.Function, idSSA, idCSA string) {
+	for _, it := range []struct {
+		rule string
+		fn   *ssa.Function
+		csa  bool
+	}{{idSSA, ssaS, false}, {idCSA, csaS, true}} {
+		c.R.Rule(it.rule, "record the reference first: the XR write needs ok(Update(claim)) after SetResourceReference(ref of the written XR)"+boolStr(it.csa, "; skip only when the reference is already recorded"), 4,
+			"an XR created before its reference is durable on the claim is leaked by a crash and a second XR is created on retry")
+		fn := it.fn
+		if fn == nil {
+			continue
+		}
+		xw, xrObj, cu := syncSites(fn)
+		if xw == nil || len(cu) == 0 {
+			c.R.Unknown(load.FuncName(fn)+": sites", c.pos(fn.Pos()), "XR write or claim Update not found")
+			continue
+		}
+		cm := ssa.Value(fn.Params[2])
+		// the claim update that precedes the XR write
+		var first ssa.CallInstruction
+		for _, u := range cu {
+			if cfgx.InstrReaches(u, xw, nil) {
+				first = u
+			}
+		}
+		if first == nil {
+			c.R.Bad(site(xw)+" after-claim-update", c.pos(xw.Pos()), "no claim Update precedes the XR write")
+			continue
+		}
+		gates := okEdges(first)
+		what := "ok(client.Update(claim))"
+		if it.csa {
+			for _, eq := range calls(fn, "github.com/google/go-cmp/cmp.Equal") {
+				a := eq.Common().Args
+				isExisting := func(v ssa.Value) bool {
+					return flow.Default.Any(v, func(x ssa.Value) bool { return hasSuffixCall(x, "claim.Unstructured).GetResourceReference") })
+				}
+				isProposed := func(v ssa.Value) bool {
+					return flow.Default.Any(v, func(x ssa.Value) bool { return hasSuffixCall(x, "composite.Unstructured).GetReference") })
+				}
+				if (isExisting(a[0]) && isProposed(a[1])) || (isExisting(a[1]) && isProposed(a[0])) {
+					t, _ := cfgx.CallCondEdges(eq)
+					gates = append(gates, t...)
+					what += " or cmp.Equal(recorded, proposed reference)"
+				}
+			}
+		}
+		c.requireCross(site(xw)+" after-claim-update", xw, gates, what)
+		// SetResourceReference(ref of written XR) dominates the claim update
+		srr := methodCallOn(fn, "claim.Unstructured).SetResourceReference", cm)
+		good := false
+		for _, s := range srr {
+			arg := cfgx.CallArgs(s)[0]
+			fromXR := false
+			for _, ci := range flow.Strict.CallsIn(arg) {
+				if strings.HasSuffix(cfgx.CalleeName(ci), "composite.Unstructured).GetReference") && flow.Root(underIface(cfgx.Receiver(ci))) == xrObj {
+					fromXR = true
+				}
+			}
+			if fromXR && cfgx.MustPass(s.Block(), first.Block()) && cfgx.InstrReaches(s, first, nil) {
+				good = true
+			}
+		}
+		c.R.Check(good, site(first)+" carries-reference", c.pos(first.Pos()), "the claim written carries the reference of the XR object that will be written", "the claim Update is not preceded by SetResourceReference(reference of the XR that is written)")
+		c.R.Check(flow.Root(underIface(cfgx.CallArgs(first)[1])) == cm, site(first)+" updates-claim", c.pos(first.Pos()), "updates the claim parameter", "the Update before the XR write is not of the claim being synced")
+		// no Patch/Apply/Create of the claim before the XR write
+		for _, w := range directWrites(fn) {
+			if w == first || cfgx.CalleeName(w) == clientUpdate {
+				continue
+			}
+			a := cfgx.CallArgs(w)
+			if len(a) > 1 && fullType(a[1]) == tClaimUnstr && cfgx.InstrReaches(w, xw, nil) && cfgx.CalleeName(w) != statusUpdate {
+				c.R.Bad(site(w)+" claim-write-kind", c.pos(w.Pos()), "the claim is written before the XR with a call that is not resourceVersion-checked (must be client.Update)")
+			}
+		}
+		// a failed claim update returns
+		ev := cfgx.ErrEvents(first)
+		r, w := cfgx.ReachableFromEdges(ev.Fail, xw, ev.OK, c.posf())
+		c.R.Check(!r && len(ev.Fail) > 0, site(first)+" failure-returns", c.pos(first.Pos()), "a failed claim Update returns before the XR write", "the XR write is reachable after a failed claim Update", w...)
+	}
 }
